@@ -426,6 +426,8 @@ func genCuts(r *hx.Rng, h *history, all bool) []cutSpec {
 	return cuts
 }
 
+// class of a crash point: 1 = torn index entry, 0 = tombstone last in the index with something
+// behind its record (the crash points of the two repaired findings), -1 = any other
 func trigOf(h *history, c cutSpec) int {
 	if c.icut%16 != 0 {
 		return 1
@@ -545,17 +547,17 @@ func main() {
 	fresh := &opT{write: true, key: 9, cookie: 7, data: []byte("fresh")}
 	fresh.crc = uint32(needle.NewCRC(fresh.data))
 
-	out.Rule = "cases 0,1 = witnesses of findings 0 and 1 (fixed history, one crash point each); then --n random histories (quick: 3..5 operations, thorough: 3..14) of writes (payload 1..40 bytes, 1/6 with a name, 1/8 repeating the key's last bytes, 1/10 with a wrong cookie) and deletes over 3 keys, run on a real Store volume; crash points of a history: every byte of the .dat from the start of its second-to-last record to its end (plus boundary, boundary+1 and middle of earlier records) combined with every number of whole .idx entries that write order allows (thorough: sampled for long histories), plus torn .idx entries, plus points where the index is ahead of the data (correspondence only), plus occasionally a cut inside the super block; each history yields one case per trigger class of its crash points (none / finding 0 / finding 1); every crash point is a real Store.MountVolume of the truncated files; non-trivial = some reopened volume served a blob; distinct = canonical operations + crash points"
+	out.Rule = "cases 0,1 = the crash points of the two repaired findings (fixed history; tombstone last in the index + 5 torn bytes; index entry torn after 7 bytes); then --n random histories (quick: 3..5 operations, thorough: 3..14) of writes (payload 1..40 bytes, 1/6 with a name, 1/8 repeating the key's last bytes, 1/10 with a wrong cookie) and deletes over 3 keys, run on a real Store volume; crash points of a history: every byte of the .dat from the start of its second-to-last record to its end (plus boundary, boundary+1 and middle of earlier records) combined with every number of whole .idx entries that write order allows (thorough: sampled for long histories), plus torn .idx entries, plus points where the index is ahead of the data (correspondence only), plus occasionally a cut inside the super block; each history yields one case (of at most 120 crash points) per class of its crash points (ordinary / tombstone-tail / torn-index); every crash point is a real Store.MountVolume of the truncated files; non-trivial = some reopened volume served a blob; distinct = canonical operations + crash points"
 
-	// witnesses of the known findings: independent of the seed
+	// the witnesses of the two repaired findings: independent of the seed
 	{
 		h := e.runHistory(witnessOps())
-		// finding 0: the index ends with the tombstone of key 1, the data file holds 5 bytes more
+		// (was read-only) the index ends with the tombstone of key 1, the data file holds 5 bytes more
 		c0 := e.runCuts(h, keys, fresh, []cutSpec{{h.ends[3] + 5, 48}})
-		e.emit(h, keys, fresh, c0, "witness-tombstone-then-torn-record")
-		// finding 1: the second index entry is torn after 7 bytes
+		e.emit(h, keys, fresh, c0, "repaired-tombstone-then-torn-record")
+		// (was a panic) the second index entry is torn after 7 bytes
 		c1 := e.runCuts(h, keys, fresh, []cutSpec{{h.ends[2], 16 + 7}})
-		e.emit(h, keys, fresh, c1, "witness-torn-index-entry")
+		e.emit(h, keys, fresh, c1, "repaired-torn-index-entry")
 	}
 
 	root := hx.NewRng(out.Seed)
